@@ -384,3 +384,154 @@ def explain(fn, t):
           "raw_error": (qname, qline, qop),
           "without (reported, line)": verdict(d0, qname, qline, qop),
           "with (reported, line)": verdict(d1, qname, qline, qop)}
+
+
+# ------------------------------------------------- h_source: the real parser too
+
+# The same with/without differential, but the Directors are built from SOURCE
+# TEXT through the real directors.parser (comment extraction, grouping of
+# comments per statement / call range, function ranges, return lines).  The
+# program is chosen among templates, the directives are placed by selectors,
+# the raw error (class, line, opcode) stays symbolic.
+
+TEMPLATES = [
+    # 0: module-level statements, one multi-line call
+    ["x = 1", "y = foo(x,", "        x)", "z = y.attr", ""],
+    # 1: a function whose last statement spans two lines (implicit return)
+    ["def f() -> int:", "  x = 1", "  print(x,", "        x)", "v = f()"],
+    # 2: nested function, inner one ends in a multi-line statement
+    ["def outer():", "  def inner() -> int:", "    x = 1", "    print(x,", "          x)",
+     "  return inner", "w = outer()"],
+    # 3: nested calls on several lines and an explicit return
+    ["def g(a) -> int:", "  b = h(k(a),", "        a).m(", "      a)", "  return b", "u = g(1)"],
+    # 4: decorated function and a multi-line assignment
+    ["@deco", "def d() -> int:", "  t = (1 +", "       2)", "  q = t", "r = d()"],
+    # 5: two functions, single-line bodies
+    ["def p() -> int:", "  s = 1", "def q2() -> str:", "  s = 2", "o = p()"],
+]
+NTEMPL = param("C03_NTEMPL", quick=3, thorough=len(TEMPLATES))
+SRC_PRIOR = param("C03_SRC_PRIOR", quick=0, thorough=1)
+MAXLINES = max(len(t) for t in TEMPLATES)
+SRC_NAMES = ["attribute-error", "bad-return-type"]
+# template, prior kind (0 none, 1 trailing disable, 2 stand-alone disable, 3 stand-alone enable),
+# prior name, prior line, appended kind (0 pytype disable, 1 type: ignore), appended name,
+# appended line, qname, qline, qop
+SRC_SEL = Tuple[(int,) * 10]
+
+
+def src_ok(t):
+  tm, pk, pn, pl, ak, an, al, qn, ql, qo = t
+  return all([
+      inrange(tm, 0, NTEMPL), inrange(pk, 0, 4 if SRC_PRIOR else 1),
+      any([all([pk == 0, pn == 0, pl == 0]),
+           all([pk != 0, inrange(pn, 0, 2), inrange(pl, 1, MAXLINES + 1)])]),
+      inrange(ak, 0, 2), any([all([ak == 0, inrange(an, 0, 2)]), all([ak == 1, an == 0])]),
+      inrange(al, 1, MAXLINES + 1), inrange(qn, 0, 2), inrange(ql, 0, MAXLINES + 2),
+      inrange(qo, 0, 2)])
+
+
+def src_key(t):
+  return sum(w * x for w, x in zip(_W, t))
+
+
+@untraced
+def statement_starts_in_functions(src):
+  """Oracle side (CPython ast): first lines of statements inside functions,
+  the only lines an implicit `return None` can carry."""
+  import ast  # pylint: disable=g-import-not-at-top
+  out = set()
+  for node in ast.walk(ast.parse(src)):
+    if isinstance(node, (ast.FunctionDef, ast.AsyncFunctionDef)):
+      for st in ast.walk(node):
+        if isinstance(st, ast.stmt) and st is not node:
+          out.add(st.lineno)
+  return out
+
+
+def make_source(lines, prior, appended):
+  """Returns (source without the appended directive, with it, its line)."""
+  lines = list(lines)
+  extra_before = 0
+  if prior is not None:
+    kind, name, pl = prior
+    if kind == 1:
+      lines[pl - 1] += "  # pytype: disable=" + name
+    else:
+      indent = lines[pl - 1][:len(lines[pl - 1]) - len(lines[pl - 1].lstrip())]
+      lines.insert(pl - 1, indent + "# pytype: %s=%s" % ("disable" if kind == 2 else "enable", name))
+      extra_before = pl
+  ak, name, al = appended
+  if extra_before and al >= extra_before:
+    al += 1
+  base = "\n".join(lines) + "\n"
+  lines[al - 1] += "  # type: ignore" if ak == 1 else "  # pytype: disable=" + name
+  return base, "\n".join(lines) + "\n", al
+
+
+def director_from_source(src):
+  return directors.Director(directors.parse_src(src, (3, 12)), errors.VmErrorLog(None, src), FILENAME, ())
+
+
+@untraced
+def appended_start_lines(src, line):
+  """Start lines of the statement / call ranges the comment on `line` was
+  recorded in (the documented adjusted-start-line mechanism)."""
+  visitor = parser.visit_src_tree(directors.parse_src(src, (3, 12)))
+  out = []
+  for rng, group in visitor.structured_comment_groups.items():
+    if any(c.line == line for c in group):
+      out.append(rng.start_line)
+  return out
+
+
+def h_source(t: SRC_SEL) -> bool:
+  """
+  pre: src_ok(t)
+  pre: shard_ok(src_key(t))
+  post: check_post(_)
+  """
+  lines = TEMPLATES[conc(t[0], NTEMPL)]
+  n = len(lines)
+  pk = conc(t[1], 4 if SRC_PRIOR else 1)
+  prior = None
+  if pk:
+    pl = conc(t[3] - 1, MAXLINES) + 1
+    if pl > n or not lines[pl - 1].strip():
+      return True   # no such line in this template
+    prior = (pk, SRC_NAMES[conc(t[2], 2)], pl)
+  ak = conc(t[4], 2)
+  al = conc(t[6] - 1, MAXLINES) + 1
+  if al > n or not lines[al - 1].strip():
+    return True
+  aname = "*" if ak == 1 else SRC_NAMES[conc(t[5], 2)]
+  src0, src1, L = make_source(lines, prior, (ak, aname, al))
+  qname = SRC_NAMES[conc(t[7], 2)]
+  qop = OPCODES[conc(t[9], 2)]
+  qline = t[8]
+  if qname == "bad-return-type" and qop == "RETURN_VALUE":
+    # compiler guarantee: such an error comes from a statement start inside a function
+    starts = statement_starts_in_functions(src0)
+    if not any([qline == s for s in starts]):
+      return True
+  d0 = director_from_source(src0)
+  d1 = director_from_source(src1)
+  rep0, line0 = verdict(d0, qname, qline, qop)
+  rep1, line1 = verdict(d1, qname, qline, qop)
+  matches = aname == "*" or aname == qname
+  ok = True
+  desc = "same"
+  if all([rep0, line0 == L, matches]):
+    ok = not rep1
+    desc = "silenced"
+  else:
+    same = all([rep0 == rep1, line0 == line1])
+    if not same:
+      starts = [L] + appended_start_lines(src1, L)
+      touched = any([any([line0 == p for p in starts]), any([line1 == p for p in starts])])
+      ok = all([matches, touched])
+      desc = "changed"
+      if not ok and kf_skip(kf_class(d0, d1, qname, qop)):
+        ok = True
+  record("S t%d prior=%r appended=%r q=%s/%s -> %s N" % (
+      conc(t[0], NTEMPL), prior, (ak, aname, al), qname, qop, desc))
+  return ok
